@@ -60,4 +60,29 @@ theorem no_option_twice : (cliFlags.map fun e => (e.1, e.2.1)).Nodup := by decid
 /-- the check is not vacuous: a default that is not the source's is refused -/
 example : registered [("toMultiAlignCmd", "wrap", "Int", "60")] = false := by decide +kernel
 
+
+/-- how every command hands its options to the package function it calls (`Gen.cliCalls`, regenerated from cmd/*.go and
+the callee's parameter list): parameter = source, where `flag:x` is the variable of option x, `in:x` / `out:x` a stream
+opened from option x, `expr:` a value computed in the command (the measure after validation, the input types and the
+ignore list of topranking, the annotation suffix, "reference given as a file"). This is the plumbing the command models
+assume: e.g. `--start` / `--end` reach `trimstart` / `trimend`, `--hard-gaps`, `--aggregate` and `--threshold` reach the
+parameters of the same meaning in that order, `--size-*` and `--dist-*` reach the bins of the same name. Swapping two
+arguments of one type, or opening the wrong option's file, changes the regenerated list and breaks `wiring`. -/
+def expectedCalls : List (String × String × List String) := [
+  ("closestCmd", "closest.ClosestN", ["catchmentSize=flag:number", "maxdist=expr:dist", "query=in:query", "target=in:target", "measure=expr:measure", "out=out:outfile", "table=flag:table", "threads=flag:threads"]),
+  ("closestCmd", "closest.Closest", ["query=in:query", "target=in:target", "measure=expr:measure", "out=out:outfile", "threads=flag:threads"]),
+  ("indelCmd", "sam.Indels", ["samFile=in:samfile", "insOut=out:insertions-out", "delOut=out:deletions-out", "threshold=flag:threshold"]),
+  ("toMultiAlignCmd", "sam.ToMultiAlign", ["samIn=in:samfile", "out=out:fasta-out", "wrap=flag:wrap", "trimstart=flag:start", "trimend=flag:end", "pad=flag:pad", "threads=flag:threads"]),
+  ("toPairAlignCmd", "sam.ToPairAlign", ["samIn=in:samfile", "ref=in:reference", "outpath=flag:outpath", "wrap=flag:wrap", "trimStart=flag:start", "trimEnd=flag:end", "omitRef=flag:omit-reference", "omitIns=flag:skip-insertions", "threads=flag:threads"]),
+  ("samVariantsCmd", "sam.Variants", ["samIn=in:samfile", "refIn=in:reference", "refFromFile=expr:refFromFile", "annoIn=in:annotation", "annoSuffix=expr:annoSuffix", "out=out:outfile", "start=flag:start", "end=flag:end", "aggregate=flag:aggregate", "threshold=flag:threshold", "appendSNP=flag:append-snps", "threads=flag:threads"]),
+  ("snpCmd", "snps.SNPs", ["ref=in:reference", "alignment=in:query", "hardGaps=flag:hard-gaps", "aggregate=flag:aggregate", "threshold=flag:threshold", "w=out:outfile"]),
+  ("updownListCmd", "updown.List", ["reference=in:reference", "alignment=in:query", "out=out:outfile"]),
+  ("toprankingCmd", "updown.TopRanking", ["query=in:query", "target=in:target", "reference=in:reference", "out=out:outfile", "table=flag:table", "q_in_type=expr:qtype", "t_in_type=expr:ttype", "ignoreArray=expr:ignoreArray", "sizetotal=flag:size-total", "sizeup=flag:size-up", "sizedown=flag:size-down", "sizeside=flag:size-side", "sizesame=flag:size-same", "distall=flag:dist-all", "distup=flag:dist-up", "distdown=flag:dist-down", "distside=flag:dist-side", "threshpair=flag:threshold-pair", "threshtarg=flag:threshold-target", "nofill=flag:no-fill", "distpush=flag:dist-push"]),
+  ("variantsCmd", "variants.Variants", ["msaIn=in:msa", "stdin=expr:stdin", "refID=flag:reference", "annoIn=in:annotation", "annoSuffix=expr:annoSuffix", "out=out:outfile", "start=flag:start", "end=flag:end", "aggregate=flag:aggregate", "threshold=flag:threshold", "appendSNP=flag:append-snps", "threads=flag:threads"])]
+
+theorem wiring : cliCalls = expectedCalls := by decide +kernel
+
+/-- not vacuous: two Boolean arguments of `snps` exchanged are refused -/
+example : (("snpCmd", "snps.SNPs", ["ref=in:reference", "alignment=in:query", "hardGaps=flag:aggregate", "aggregate=flag:hard-gaps", "threshold=flag:threshold", "w=out:outfile"]) ∈ expectedCalls) = False := by decide +kernel
+
 end Gofasta.Props.Cli
